@@ -22,8 +22,23 @@ struct Item {
 
 pub fn sym_vals(s: &Scen, symbolic_queries: bool, symbolic_axes: bool) -> Vals<Sym> {
     let (nx, ny) = (s.nx(), s.ny());
-    // exactly representable, non-uniform axes
-    let ax = |n: usize, p: &str, off: i128| -> Vec<Sym> { (0..n).map(|i| if symbolic_axes { Sym::var(&format!("{p}{i}")) } else if s.default_axes { Sym::int(i as i128) } else { Sym::rat(off + (i * (i + 3)) as i128, 2) }).collect() };
+    // exactly representable, non-uniform axes whose span is exactly len-1: the slope (len-1)/span of the index
+    // guess is then exactly 1 and the guess of an exactly representable query folds to a constant (no branching
+    // on constant queries); the interior knots are shifted by -1/4, 0, +1/4 so that the guess still misses
+    let ax = |n: usize, p: &str, off: i128| -> Vec<Sym> {
+        (0..n)
+            .map(|i| {
+                if symbolic_axes {
+                    Sym::var(&format!("{p}{i}"))
+                } else if s.default_axes {
+                    Sym::int(i as i128)
+                } else {
+                    let shift = if i == 0 || i + 1 == n { 0 } else { ((i * 7) % 3) as i128 - 1 };
+                    Sym::rat(4 * (off + i as i128) + shift, 4)
+                }
+            })
+            .collect()
+    };
     let x = ax(nx, "x", -3);
     let y = ax(ny.max(1), "y", 1);
     let total: usize = s.shape.iter().product();
@@ -36,14 +51,36 @@ pub fn sym_vals(s: &Scen, symbolic_queries: bool, symbolic_axes: bool) -> Vals<S
     }
     let nq = s.nq();
     let span = |a: &Vec<Sym>, k: usize| -> Sym {
-        // distinct dyadic points strictly inside the range, none at a knot
+        // distinct dyadic points strictly inside the range and spread over it (so that different query elements
+        // fall into different brackets), none at a knot
         let (lo, hi) = (a[0].konst().unwrap(), a[a.len() - 1].konst().unwrap());
         let w = hi.sub(lo).unwrap();
-        let r = lo.add(w.mul(crate::engine::core::Rat::new(2 * k as i128 + 1, 64)).unwrap()).unwrap();
+        let den = (2 * nq.max(1)).next_power_of_two().max(8) as i128 * 4;
+        let r = lo.add(w.mul(crate::engine::core::Rat::new(4 * (2 * (k % nq.max(1)) as i128 + 1) + 1, den)).unwrap()).unwrap();
         Sym::rat(r.0, r.1)
     };
     let (qx, qy) = if symbolic_queries || symbolic_axes { ((0..nq).map(|k| Sym::var(&format!("qx{k}"))).collect(), (0..nq).map(|k| Sym::var(&format!("qy{k}"))).collect()) } else { ((0..nq).map(|k| span(&x, k)).collect(), (0..nq).map(|k| span(&y, nq - 1 - k + 3)).collect()) };
     Vals { x, y, data, vl: (0..lanes).map(|j| Sym::var(&format!("vl{j}"))).collect(), vr: (0..lanes).map(|j| Sym::var(&format!("vr{j}"))).collect(), qx, qy, zero: Sym::int(0) }
+}
+
+/// native f64 values corresponding to symbolic scenario values: constants keep their (exactly representable)
+/// value, variables take the model's value, or a generic finite value when the model does not mention them
+pub fn native_from_sym(v: &Vals<Sym>, m: &std::collections::BTreeMap<String, f64>, seed: u64) -> Vals<f64> {
+    let mut rng = crate::common::Rng::new(seed ^ 0x5eed);
+    let mut conv = |t: &Sym| -> f64 {
+        if let Some(r) = t.konst() {
+            return r.to_f64();
+        }
+        let name = with_ctx(|c| match c.node(t.0) {
+            crate::engine::core::Node::Var(i) => Some(c.var_names[*i as usize].clone()),
+            _ => None,
+        });
+        match name.and_then(|n| m.get(&n).copied()) {
+            Some(x) => x,
+            None => rng.f64_in(-5.0, 5.0),
+        }
+    };
+    Vals { x: v.x.iter().map(&mut conv).collect(), y: v.y.iter().map(&mut conv).collect(), data: v.data.iter().map(&mut conv).collect(), vl: v.vl.iter().map(&mut conv).collect(), vr: v.vr.iter().map(&mut conv).collect(), qx: v.qx.iter().map(&mut conv).collect(), qy: v.qy.iter().map(&mut conv).collect(), zero: 0.0 }
 }
 
 struct AllCalls {
@@ -140,7 +177,34 @@ fn check_item(it: &Item) -> Report {
         let kinds = [("interp_array", calls.array.is_err()), ("interp_array_into", calls.array_into.is_err())];
         for (n, is_err) in kinds {
             if is_err != any_single_err && nq > 0 {
-                chk.finding(&format!("C09:error-agreement:{kname}:{:?}", s.qrank), &format!("{}: path {pi}: {n} {} but the element-wise calls {}", s.name(), if is_err { "fails" } else { "succeeds" }, if any_single_err { "fail for some element" } else { "all succeed" }), Json::obj().with("config", s.name()), None);
+                // native replay with the query (and axis) values of a model of this path
+                let vars: Vec<String> = with_ctx(|c| c.var_names.clone());
+                let (_, vals) = chk.model(&pcs, &vars);
+                let m = crate::c05::model_f64(&vals);
+                let mut nv = entry::native_vals(s, 1);
+                for k in 0..nv.qx.len() {
+                    if let Some(q) = m.get(&format!("qx{k}")) {
+                        nv.qx[k] = *q;
+                    }
+                    if let Some(q) = m.get(&format!("qy{k}")) {
+                        nv.qy[k] = *q;
+                    }
+                }
+                for k in 0..nv.x.len() {
+                    if let Some(x) = m.get(&format!("x{k}")) {
+                        nv.x[k] = *x;
+                    }
+                }
+                for k in 0..nv.y.len() {
+                    if let Some(y) = m.get(&format!("y{k}")) {
+                        nv.y[k] = *y;
+                    }
+                }
+                let ep = if n == "interp_array" { Ep::Array } else { Ep::ArrayInto };
+                let nat_arr = entry::native_run(s, &nv, &ep, None, None);
+                let nat_any_single_err = (0..nq).any(|k| entry::native_run(s, &nv, &Ep::Interp(k), None, None).is_err());
+                let reproduced = nat_arr.is_err() != nat_any_single_err;
+                chk.finding(&format!("C09:error-agreement:{kname}:{:?}", s.qrank), &format!("{}: path {pi}: {n} {} but the element-wise calls {}", s.name(), if is_err { "fails" } else { "succeeds" }, if any_single_err { "fail for some element" } else { "all succeed" }), Json::obj().with("config", s.name()).with("model", crate::c05::model_json(&m)).with("native_batch", format!("{:?}", nat_arr.as_ref().map(|_| "Ok"))).with("native_some_single_call_fails", nat_any_single_err), Some(reproduced));
             } else {
                 chk.trivially_holds("error-agreement");
             }
@@ -284,7 +348,10 @@ fn items(args: &Args) -> Vec<Item> {
             if kind.is_2d() && qs.len() == 2 && !thorough {
                 continue;
             }
-            v.push(Item { s: base(kind.clone(), shape.clone(), false, qs, qr, false, false), symbolic_queries: true, timeout_ms });
+            v.push(Item { s: base(kind.clone(), shape.clone(), false, qs.clone(), qr, false, false), symbolic_queries: true, timeout_ms });
+            if !matches!(kind, Kind::Spline(_)) || qs.len() < 2 {
+                v.push(Item { s: base(kind.clone(), shape.clone(), false, qs, qr, true, false), symbolic_queries: true, timeout_ms });
+            }
         }
     }
     v
